@@ -76,6 +76,31 @@ pub fn rows_of(sel: &[usize]) -> Vec<(usize, Row)> {
         .collect()
 }
 
+/// the same rows of type `t`, interleaved with two rows of a second type `t2` (same fields,
+/// ids 101 and 102) whose values are taken from the same profiles, so that they would match
+/// the same predicates if a read leaked across event types
+pub fn rows_of_two(sel: &[usize]) -> Vec<(usize, Row)> {
+    let ps = profiles();
+    let mut out = Vec::new();
+    let other = |id: i64, pi: usize| {
+        let mut p = ps[pi % 10].clone();
+        p.insert("id".into(), json!(id));
+        (1usize, Row { k: id, ctx: format!("c{}", pi % 2), payload: p, ts: 0 })
+    };
+    out.push(other(101, sel[0] + 3));
+    for (i, r) in rows_of(sel).into_iter().enumerate() {
+        out.push(r);
+        if i == 0 {
+            out.push(other(102, sel[0]));
+        }
+    }
+    out
+}
+
+pub fn schema2() -> Schema {
+    Schema { name: "t2".into(), fields: schema().fields }
+}
+
 pub fn leaf_preds() -> Vec<Pred> {
     let mut v = Vec::new();
     let int_l = |f: &str, ls: &[Lit], v: &mut Vec<Pred>| {
@@ -252,14 +277,18 @@ pub struct CaseResult {
 }
 
 pub fn run_case(dir: &std::path::Path, dataset: &[usize], cfg: &SysConfig, layouts: &[Layout], qs: &[Q]) -> CaseResult {
+    run_case2(dir, dataset, cfg, layouts, qs, false)
+}
+
+pub fn run_case2(dir: &std::path::Path, dataset: &[usize], cfg: &SysConfig, layouts: &[Layout], qs: &[Q], two: bool) -> CaseResult {
     let sch = schema();
     let mut answers: Vec<BTreeMap<Layout, Result<Vec<i64>, String>>> = vec![BTreeMap::new(); qs.len()];
     let mut expected: Vec<Option<Vec<i64>>> = vec![None; qs.len()];
     let mut errors = Vec::new();
     for (li, layout) in layouts.iter().enumerate() {
         let sc = Scenario {
-            schemas: vec![sch.clone()],
-            rows: rows_of(dataset),
+            schemas: if two { vec![sch.clone(), schema2()] } else { vec![sch.clone()] },
+            rows: if two { rows_of_two(dataset) } else { rows_of(dataset) },
             layout: *layout,
             cfg: cfg.clone(),
             queries: qs.iter().map(|q| q.text.clone()).collect(),
@@ -273,7 +302,7 @@ pub fn run_case(dir: &std::path::Path, dataset: &[usize], cfg: &SysConfig, layou
         }
         match run_res {
             Ok(out) => {
-                let rows: Vec<Row> = out.rows.iter().map(|(_, r)| r.clone()).collect();
+                let rows: Vec<Row> = out.rows.iter().filter(|(ti, _)| *ti == 0).map(|(_, r)| r.clone()).collect();
                 for (qi, q) in qs.iter().enumerate() {
                     let rep = &out.replies[qi];
                     let mut r2 = rep.clone();
@@ -416,6 +445,10 @@ pub fn check(tier: &str) -> i32 {
     let cfgs = cfgs(tier);
     let layouts = ALL;
     let work: Vec<(usize, Vec<usize>)> = (0..cfgs.len()).flat_map(|ci| datasets.iter().map(move |d| (ci, d.clone()))).collect();
+    // second part: the same queries while rows of a second event type share memtables, segments and zones
+    let step2 = if tier == "quick" { 29 } else { 3 };
+    let datasets2: Vec<Vec<usize>> = combos(10, 3).into_iter().filter(|d| d.len() >= 2).step_by(step2).collect();
+    let work2: Vec<(usize, Vec<usize>)> = (0..cfgs.len().min(2)).flat_map(|ci| datasets2.iter().map(move |d| (ci, d.clone()))).collect();
     // determinism canary
     let can1 = run_case(&scratch.dir.join("canary"), &work[work.len() / 2].1, &cfgs[0], &layouts[..4], &qs[..40.min(qs.len())]);
     let can2 = run_case(&scratch.dir.join("canary"), &work[work.len() / 2].1, &cfgs[0], &layouts[..4], &qs[..40.min(qs.len())]);
@@ -424,8 +457,9 @@ pub fn check(tier: &str) -> i32 {
         return 2;
     }
     let res = par_map(&work, threads(), |i, (ci, d)| run_case(&scratch.dir.join(format!("w{i}")), d, &cfgs[*ci], &layouts, &qs));
+    let res2 = par_map(&work2, threads(), |i, (ci, d)| run_case2(&scratch.dir.join(format!("v{i}")), d, &cfgs[*ci], &layouts, &qs, true));
     let mut machinery = Vec::new();
-    for r in &res {
+    for r in res.iter().chain(res2.iter()) {
         for e in &r.errors {
             machinery.push(e.clone());
         }
@@ -442,6 +476,7 @@ pub fn check(tier: &str) -> i32 {
     let mut discriminating = 0u64;
     let mut with_ref = 0u64;
     let mut outcomes: BTreeSet<String> = BTreeSet::new();
+    for (part, work, res) in [("", &work, &res), ("2types|", &work2, &res2)] {
     for ci in 0..cfgs.len() {
         for (qi, q) in qs.iter().enumerate() {
             let mut sig = String::new();
@@ -487,18 +522,19 @@ pub fn check(tier: &str) -> i32 {
             if let Ok(dump) = std::env::var("VERIF_DUMP") {
                 use std::io::Write;
                 if let Ok(mut f) = std::fs::OpenOptions::new().create(true).append(true).open(&dump) {
-                    let _ = writeln!(f, "cfg{ci}|{}|{}", q.text, sig);
+                    let _ = writeln!(f, "{part}cfg{ci}|{}|{}", q.text, sig);
                 }
             }
             if any_fail {
                 failing.push(crate::golden::Failing {
-                    key: format!("cfg{ci}|{}", q.text),
+                    key: format!("{part}cfg{ci}|{}", q.text),
                     digest: crate::golden::digest(&sig),
-                    class: format!("{} [{}]", coarse_class(&sch, q), if layout_dep { "answer depends on the storage layout" } else { "same wrong answer in every layout" }),
+                    class: format!("{}{} [{}]", if part.is_empty() { "" } else { "two event types stored together: " }, coarse_class(&sch, q), if layout_dep { "answer depends on the storage layout" } else { "same wrong answer in every layout" }),
                     detail: json!({"config": [cfgs[ci].shards, cfgs[ci].fill_factor, cfgs[ci].event_per_zone], "query": q.text, "failing_datasets": detail}),
                 });
             }
         }
+    }
     }
     let verdict = crate::golden::judge("C02", tier, &failing);
     let nv = crate::golden::report("C02", &verdict, &|_c| "selection differs from the reference evaluator and/or between storage layouts (see known/C02.*.json, DESIGN.md §8 C02)".to_string(), 6);
@@ -512,7 +548,8 @@ pub fn check(tier: &str) -> i32 {
             "distinct_nontrivial": discriminating,
             "rule": format!("data sets = every {step}-th multiset of <=4 rows out of 10 boundary-value profiles ({} sets) x {} configurations x {} layouts {:?} x {} queries (every leaf `field op literal` over per-type literal alphabets, IN lists, AND/OR/NOT/parenthesised combinations of a 12-leaf core, with FOR / SINCE USING variants); oracle 1 = reference evaluator where the predicate is well typed and independent of the null convention, oracle 2 = identical answer in every layout; distinct_nontrivial = (data set, config, query) triples whose reference answer is a proper non-empty subset of the rows", datasets.len(), cfgs.len(), layouts.len(), layouts, qs.len()),
             "samples": qs.iter().step_by((qs.len() / 8).max(1)).take(8).map(|q| json!(q.text)).collect::<Vec<_>>(),
-            "storage_states_built": work.len() * layouts.len(),
+            "storage_states_built": (work.len() + work2.len()) * layouts.len(),
+            "two_type_part": {"data_sets": datasets2.len(), "rule": "every step-th multiset of 2..3 rows of type t, stored interleaved with two rows of a second type t2 (same fields, values from the same profiles); every query on t must select exactly the matching t rows in every layout"},
             "queries": qs.len(),
             "triples_with_reference_answer": with_ref,
             "distinct_answers": outcomes.len(),
